@@ -455,6 +455,7 @@ func init() {
 		// ---- atomic.Value ----
 		"(*sync/atomic.Value).Load": func(i *interpreter, _ *frame, _ *ssa.Function, a []value) value {
 			i.W.m.yield("atomic.Value.Load")
+			i.W.m.syncPoint(a[0].(*value))
 			if c := i.W.m.avals[a[0].(*value)]; c != nil {
 				return *c
 			}
@@ -462,6 +463,7 @@ func init() {
 		},
 		"(*sync/atomic.Value).Store": func(i *interpreter, _ *frame, _ *ssa.Function, a []value) value {
 			v := a[1]
+			i.W.m.syncPoint(a[0].(*value))
 			i.W.m.avals[a[0].(*value)] = &v
 			i.W.m.yield("atomic.Value.Store")
 			return nil
@@ -902,7 +904,7 @@ func smapOp(i *interpreter, _ *frame, fn *ssa.Function, a []value) value {
 		m.smaps[k] = om
 	}
 	m.yield("sync.Map." + fn.Name())
-	defer m.cur.vc.tick(m.cur.id)
+	m.syncPoint(k)
 	switch fn.Name() {
 	case "Load":
 		v, ok := om.lookup(a[1])
@@ -971,6 +973,9 @@ func (i *interpreter) atomicOp(fn *ssa.Function, name string, a []value) (value,
 		}
 	}
 	cell, _ := a[0].(*value)
+	if cell != nil {
+		m.syncPoint(cell)
+	}
 	switch {
 	case strings.HasPrefix(name, "Load"):
 		m.yield("atomic." + name)
